@@ -117,14 +117,24 @@ def run(repo, rep, tier):
     ok = sorted((unparse(n.targets[0]), unparse(n.value)) for n in hs) == [('my_aconf.host', 'host'), ('my_aconf.port', 'port')]
     rep.check('dial', 'worker configures its copy with the task\'s host and port', ok, tw, 'worker host/port stores: %s' % [(unparse(n.targets[0]), unparse(n.value)) for n in hs])
     subs = [n for n in walk_no_nested(mn) if isinstance(n, ast.Call) and isinstance(n.func, ast.Attribute) and n.func.attr == 'submit']
-    ok = len(subs) == 1 and [unparse(a) for a in subs[0].args] == ['target_worker_thread', 'target_server[0]', 'target_server[1]', 'aconf']
-    rep.check('dial', 'one task per parsed (host, port) pair', ok, subs[0] if subs else mn, 'submit arguments changed')
+    ok = len(subs) == 1 and len(subs[0].args) == 4 and unparse(subs[0].args[0]) == 'target_worker_thread' and unparse(subs[0].args[3]) == 'aconf'
     if ok:
         comp = subs[0]
-        while not isinstance(comp, (ast.DictComp, ast.ListComp, ast.For)):
+        while not isinstance(comp, (ast.DictComp, ast.ListComp, ast.SetComp, ast.GeneratorExp, ast.For)):
             comp = comp._parent
-        it = comp.generators[0].iter if not isinstance(comp, ast.For) else comp.iter
+        gen = comp.generators[0] if not isinstance(comp, ast.For) else comp
+        it, tgt = gen.iter, gen.target
+        a1, a2 = unparse(subs[0].args[1]), unparse(subs[0].args[2])
+        if isinstance(tgt, ast.Name):
+            okc = (a1, a2) == ('%s[0]' % tgt.id, '%s[1]' % tgt.id)
+        elif isinstance(tgt, ast.Tuple) and len(tgt.elts) == 2:
+            okc = (a1, a2) == (unparse(tgt.elts[0]), unparse(tgt.elts[1]))
+        else:
+            okc = False
+        rep.check('dial', 'each task receives the host and the port of the parsed pair it stands for, in that order', okc, subs[0], 'task submitted with host=%s port=%s for element %s' % (a1, a2, unparse(tgt)))
         rep.check('dial', 'tasks range over the parsed target list', unparse(it) == 'target_servers', comp, 'tasks iterate %s' % unparse(it))
+    else:
+        rep.check('dial', 'one task per parsed (host, port) pair', False, subs[0] if subs else mn, 'submit call not recognised')
     ap = [n for n in walk_no_nested(mn) if isinstance(n, ast.Call) and unparse(n.func) == 'target_servers.append']
     ph = [n for n in walk_no_nested(mn) if isinstance(n, ast.Assign) and isinstance(n.value, ast.Call) and unparse(n.value.func) == 'Utils.parse_host_and_port']
     ok = len(ap) == 1 and unparse(ap[0].args[0]) == '(host, port)' and len(ph) == 1 and unparse(ph[0].targets[0]) == '(host, port)' and unparse(ph[0].value.args[0]) == 'target'
@@ -236,7 +246,7 @@ def run(repo, rep, tier):
         for n in ast.walk(m.tree):
             if isinstance(n, ast.Call) and unparse(n.func) == 'object.__setattr__' and n._func is not sa_:
                 rep.check('port', 'no store bypasses the validating setter', False, n, 'object.__setattr__ used outside AuditConf.__setattr__')
-            if isinstance(n, ast.Attribute) and n.attr == '__dict__' and n._cls is not None and n._cls.name == 'AuditConf':
+            if isinstance(n, ast.Attribute) and n.attr == '__dict__' and n._cls is not None and n._cls.name == 'AuditConf' and not (n._func is not None and n._func.name in ('__deepcopy__', '__copy__', '__getstate__', '__setstate__', '__reduce__', '__reduce_ex__')):
                 rep.check('port', 'no store bypasses the validating setter', False, n, 'AuditConf.__dict__ manipulated directly')
     # the -p guard precedes the store into aconf
     if st:
